@@ -147,7 +147,10 @@ def build(n, edges, names, validate=True):
     g = CausalGraph()
     for i in range(n):
         g.add_node(names[i])
-    for a, b in edges:
+    edges = list(edges)
+    for k, (a, b) in enumerate(edges):
+        if validate and k == len(edges) - 1 and len(edges) >= 2:
+            gen.stress(g, ('c18-pre', n, tuple(edges), tuple(names[:n])))
         g.add_edge(names[a], names[b], validate=validate)
     if validate:
         gen.stress(g, ('c18', n, tuple(edges), tuple(names[:n])))
@@ -311,6 +314,10 @@ def graph_cases(tier, rng):
         for _ in range(600):
             n = rng.choice([6, 7])
             yield n, gen.random_dag(rng, n, p=rng.choice([0.25, 0.4, 0.6])), rng.randrange(2)
+        # a seeded sample of the 32 768 topological shapes on 6 nodes (all of them in the thorough tier)
+        pairs6 = [(i, j) for i in range(6) for j in range(i + 1, 6)]
+        for mask in rng.sample(range(1 << len(pairs6)), 6000):
+            yield 6, tuple(p for k, p in enumerate(pairs6) if mask >> k & 1), 0
     else:
         for n in range(0, 5):
             for e in gen.all_labelled_dags(n):
